@@ -137,14 +137,24 @@ pub fn case(want_sample: bool) {
             ..Clock::default()
         }
     });
+    // 1 case in 3: the generator is used (1..3 timestamps taken by this thread) BEFORE its
+    // warning configuration is set through the builder-style methods - it stays the same
+    // generator, so everything handed out afterwards lies above what it handed out before.
+    let generator = MonotonicTimestampGenerator::new();
+    let mut early: Vec<i64> = Vec::new();
+    if warn_mode != 1 && rnd(3) == 0 {
+        for i in 0..1 + rnd(3) as usize {
+            log("c18:early_call", -1, i as i64);
+            early.push(generator.next_timestamp());
+        }
+    }
     let generator = if warn_mode == 2 {
-        MonotonicTimestampGenerator::new()
-            .with_warning_times(std::time::Duration::from_micros(warn_threshold_us), std::time::Duration::ZERO)
+        generator.with_warning_times(std::time::Duration::from_micros(warn_threshold_us), std::time::Duration::ZERO)
     } else if with_warnings {
         // default thresholds: 1 s skew, at most one warning per second
-        MonotonicTimestampGenerator::new()
+        generator
     } else {
-        MonotonicTimestampGenerator::new().without_warnings()
+        generator.without_warnings()
     };
     let generator = Arc::new(generator);
     log("c18:config", nthreads as i64, with_warnings as i64 + 2 * sane as i64);
@@ -187,6 +197,14 @@ pub fn case(want_sample: bool) {
     }
 
     // ---- oracles ----
+    // The calls made before the threads were started precede every thread's calls.
+    if !early.is_empty() {
+        for seq in per_thread.iter_mut() {
+            let mut v = early.clone();
+            v.append(seq);
+            *seq = v;
+        }
+    }
     for (t, seq) in per_thread.iter().enumerate() {
         if let Some(i) = seq.windows(2).position(|w| w[0] >= w[1]) {
             report(
@@ -206,7 +224,8 @@ pub fn case(want_sample: bool) {
     }
     let mut all: Vec<(i64, usize, usize)> = Vec::new();
     for (t, seq) in per_thread.iter().enumerate() {
-        for (i, v) in seq.iter().enumerate() {
+        // (the early calls are part of every thread's sequence: count them once)
+        for (i, v) in seq.iter().enumerate().skip(if t == 0 { 0 } else { early.len() }) {
             all.push((*v, t, i));
         }
     }
